@@ -270,4 +270,66 @@ Section Prog.
     - unfold seg_step. rewrite Lf. eexists; reflexivity.
   Qed.
 
+
+  Notation NL := (@NL Data Enc).
+  Notation awake_of := (@awake_of Data Enc).
+  Notation exited_of := (@exited_of Data Enc).
+  Notation hold_of := (@hold_of Data Enc).
+  Notation wait_of := (@wait_of Data Enc).
+
+  (* the head of a position-sorted queue whose members are all at or after [o] and
+     which contains an item at [o] is that item *)
+  Lemma sorted_head_at {A} (key : A -> pos) (q : list A) o x :
+    ksorted key q -> In x q -> key x = o -> (forall y, In y q -> ple o (key y)) ->
+    exists h t, q = h :: t /\ key h = o.
+  Proof.
+    intros S I E B. destruct q as [|h t]; [destruct I|]. exists h, t. split; auto.
+    destruct I as [->|I]; auto.
+    pose proof (ksorted_head_min key _ _ _ S I) as L. rewrite E in L.
+    pose proof (B h (or_introl eq_refl)) as Bh.
+    exfalso. eapply plt_irrefl. eapply plt_ple_trans; eauto.
+  Qed.
+
+  Theorem progress_inv (s : state) : Inv s -> Inv2 s -> OInv s -> PInv s -> NL s -> 1 <= nw s ->
+    final s = false -> exists e s', step s e = Some s' /\ productive s e = true.
+  Proof.
+    intros I J O P Hnl N NF.
+    destruct (lock s) as [t|] eqn:L.
+    { (* the holder of the mutex can always go on *)
+      destruct (i_lock I _ L) as (i & p & -> & Hi & Hp). exists (TW i).
+      unfold SchedC.step, SchedC.step_obs, worker_step, productive. rewrite Hi.
+      pose proof (holds_refl _ _ L) as Hh.
+      destruct p as [| | | |[t|ib|wb|wbo ibo|wb d|wb]]; try discriminate Hp.
+      - rewrite Hh. destruct (next_task s); [|destruct (finished s)]; eexists; split; reflexivity.
+      - unfold seg_step. rewrite Hh. destruct (seg_start s i t). eexists; split; reflexivity. }
+    pose proof (sum_classes Data Enc (workers s)) as Cl. pose proof (i_hold I) as Ih. rewrite L in Ih. cbn in Ih.
+    pose proof (i_len I) as Il. pose proof (i_wake I) as Iw.
+    (* an awake worker *)
+    destruct (Nat.eq_dec (sumf awake_of (workers s)) 0) as [Aw|Aw].
+    2:{ destruct (sumf_pos_ex awake_of (workers s) ltac:(lia)) as (j & pc & Hj & Hp).
+        assert (Hp1 : awake_of pc = 1) by (destruct pc as [| | | |[]]; cbn in *; lia).
+        destruct (worker_enabled_free s j pc L Hj (noseq I (o_tok O) Hj) (or_introl Hp1)) as [s' Hs].
+        exists (TW j), s'. split; auto. unfold productive. rewrite Hj. destruct pc; auto; discriminate. }
+    (* a signalled waiter *)
+    destruct (Nat.eq_dec (wakeups s) 0) as [Wk|Wk].
+    2:{ destruct (sumf_pos_ex wait_of (workers s) ltac:(lia)) as (j & pc & Hj & Hp).
+        assert (pc = PWait) by (destruct pc as [| | | |[]]; cbn in Hp; try lia; reflexivity). subst pc.
+        destruct (worker_enabled_free s j PWait L Hj eq_refl (or_intror eq_refl)) as [s' Hs].
+        exists (TW j), s'. split; auto. unfold productive. rewrite Hj. apply Nat.ltb_lt. lia. }
+    (* reader *)
+    destruct (rd s) eqn:Er.
+    2:{ exists TR. unfold SchedC.step, SchedC.step_obs, reader_step, productive. rewrite Er, (lock_free_none _ L).
+        destruct (input s) as [|d r]; [eexists; split; reflexivity|].
+        destruct (data_len d =? 0)%N; eexists; split; reflexivity. }
+    2:{ exfalso. pose proof (i_in I) as Hin. clear -Er. discriminate. }
+    2:{ exists TR. unfold SchedC.step, SchedC.step_obs, reader_step, productive. rewrite Er, (lock_free_none _ L).
+        eexists; split; reflexivity. }
+    all: (* writer *)
+      destruct (wr s) eqn:Ew;
+      [ | exists TS; unfold SchedC.step, SchedC.step_obs, writer_step, productive; rewrite Ew, (lock_free_none _ L);
+          eexists; split; reflexivity
+        | exfalso; clear -Ew; discriminate | ].
+    all: idtac "REM"; match goal with |- ?G => idtac G end.
+  Abort.
+
 End Prog.
